@@ -207,7 +207,6 @@ pub fn run_templates(run: &mut Run, templates: &[Template], bound: u32, pass: &s
     run.add("evaluations", tot.executions);
     run.add("traces_validated_against_impl", tot.executions);
     run.add("transitions", tot.steps);
-    run.add("states", tot.outcomes);
     run.add("deadlocks", tot.deadlocks);
     run.add("panics", tot.panics);
     run.set(&format!("pass_{pass}"), json!({
@@ -252,6 +251,10 @@ pub fn run_tiers(run: &mut Run, ts: &[Template], quick: u32, thorough_from: u32,
             completed = tot.min_completed_bound;
         }
     }
+    // states = distinct final outcomes (template, returns, contents) over all
+    // passes; executions / transitions are summed over the passes actually run.
+    let distinct = run.distinct_count() as u64;
+    run.add("states", distinct);
     run.set("completed_preemption_bound", json!(completed));
     run.set("templates", json!(ts.len()));
 }
